@@ -68,6 +68,7 @@ def main():
     args = ap.parse_args()
 
     os.chdir(VERIF)
+    core.serialise_numba_cache()
     try:
         builddir = build.ensure_built(verbose=(args.what == "setup"))
     except build.BuildError as e:
